@@ -18,6 +18,10 @@ use quiver_core::value::{ResourceId, Value};
 use serde::{Deserialize, Serialize};
 use std::collections::{HashMap, HashSet};
 
+#[cfg(feature = "verif")]
+#[path = "environment_verif.rs"]
+pub mod verif;
+
 type WorkerRequestMap<T> = HashMap<u64, Option<HashMap<ProcessId, T>>>;
 
 enum Aggregation {
@@ -1810,6 +1814,8 @@ impl<E: Effect> Environment<E> {
                 .filter(|(_, owner)| **owner == process_id)
                 .map(|(rid, _)| *rid)
                 .collect();
+            #[cfg(feature = "verif")]
+            let resources = verif::sorted_resources(resources);
 
             // Close each resource via the backend
             for resource_id in resources {
